@@ -39,7 +39,11 @@ pub struct LazyFunctions {
 
 impl LazyFunctions {
     pub fn get(&self) -> std::sync::MutexGuard<'_, Option<FunctionsStore>> {
+        #[cfg(feature = "verif_hooks")]
+        crate::verif_trace::record("once-enter", "FN");
         self.init.call_once(|| {
+            #[cfg(feature = "verif_hooks")]
+            crate::verif_trace::record("init-begin", "FN");
             let m = FunctionsStore::new([
                 ADD,
                 SUB,
@@ -47,10 +51,25 @@ impl LazyFunctions {
                 DIV,
             ]);
             *self.data.lock().unwrap() = Some(m);
+            #[cfg(feature = "verif_hooks")]
+            crate::verif_trace::record("init-end", "FN");
         });
         // A panic in a caller that held the guard must not make the registry
         // unusable for everyone else: recover the guard from a poisoned lock.
+        #[cfg(feature = "verif_hooks")]
+        {
+            let guard = self.data.lock().unwrap_or_else(std::sync::PoisonError::into_inner);
+            crate::verif_trace::record("locked", "FN");
+            return guard;
+        }
+        #[allow(unreachable_code)]
         self.data.lock().unwrap_or_else(std::sync::PoisonError::into_inner)
+    }
+
+    #[cfg(feature = "verif_hooks")]
+    #[doc(hidden)]
+    pub fn verif_is_locked(&self) -> bool {
+        self.data.try_lock().is_err()
     }
 }
 
